@@ -40,9 +40,9 @@ func boundaryWords(n int) [][]byte {
 		u(uint64(n)), u(uint64(n) + 1), u(uint64(n) + 31), u(uint64(n) + 32),
 		u(1 << 31), u(1<<31 - 1), u(1 << 32), u(1<<32 - 1), u(1 << 62), u(1 << 63), u(1<<63 - 1), u(1<<63 - 32), u(1<<63 + 32),
 		u(math.MaxUint64), u(math.MaxUint64 - 31), u(math.MaxUint64 - 32), u(math.MaxUint64 - 63),
-		be256(1, 0, 23),       // 2^64: wraps to 0 when read as 64 bit
-		be256(1, 32, 23),      // 2^64+32: wraps to 32
-		be256(0x80, 0, 0),     // 2^255
+		be256(1, 0, 23),   // 2^64: wraps to 0 when read as 64 bit
+		be256(1, 32, 23),  // 2^64+32: wraps to 32
+		be256(0x80, 0, 0), // 2^255
 		be256(0xff, math.MaxUint64, 0),
 	}
 	full := make([]byte, 32)
@@ -324,7 +324,9 @@ var c10FuzzEvents = func() []*refmodel.Event {
 	u := func() *refmodel.Type { return &refmodel.Type{Kind: refmodel.KUint, Bits: 256} }
 	by := func() *refmodel.Type { return &refmodel.Type{Kind: refmodel.KBytes} }
 	st := func() *refmodel.Type { return &refmodel.Type{Kind: refmodel.KString} }
-	arr := func(n int, e *refmodel.Type) *refmodel.Type { return &refmodel.Type{Kind: refmodel.KArray, Len: n, Elem: e} }
+	arr := func(n int, e *refmodel.Type) *refmodel.Type {
+		return &refmodel.Type{Kind: refmodel.KArray, Len: n, Elem: e}
+	}
 	tup := func(fs ...*refmodel.Type) *refmodel.Type { return &refmodel.Type{Kind: refmodel.KTuple, Fields: fs} }
 	sel := func(t *refmodel.Type, c string) *refmodel.Type { t.Column = c; t.Name = c; return t }
 	mk := func(ins ...*refmodel.Type) *refmodel.Event { return &refmodel.Event{Name: "F", Inputs: ins} }
